@@ -833,6 +833,27 @@ def run_sharing(ck, wd, thorough, rng):
             d = [j for j in js if "differ" in j and "phase" not in j]
             ck.violation("sharing:free:events-differ", "free-running threads: events differ from the run alone: %s" % d[:3], {"mode": "sharing-free"})
     reps = tsan_reports(out, vlib.repo())
+    # the same synchronised initialisations in an application that has installed a global C++ locale of its own (decimal comma):
+    # process-wide state a generator must neither depend on in a schedule-dependent way nor leave changed
+    env_l = dict(vlib.harness_env("plain"), BXDECAY0_DBD_GA_DATA_DIR=gad, VERIF_GA_VERSION="v1.0", VERIF_APP_LOCALE="comma")
+    for rep in range(3 if thorough else 2):
+        rc, outl = vlib.sh([exe, "--mode", "free", "--threads", "4", "--events", "2"], input="\n".join(sync_cfg * 2 + ["Co60:bkg", "Mo100:0:1"]) + "\n",
+                           timeout=600, env=env_l, drop_stderr=True)
+        jl = [json.loads(l) for l in outl.splitlines() if l.startswith("{")]
+        sl = [j for j in jl if j.get("phase") == "free"]
+        if not sl:
+            ck.violation("sharing:crash:app-locale", "free-running threads in an application with its own global locale died rc=%s: %s" % (rc, outl[-400:]),
+                         {"mode": "sharing-free"})
+            break
+        ck.add("mt_events_compared_under_application_locale", sl[-1]["events_compared"])
+        if not sl[-1]["app_locale_intact"]:
+            ck.violation("sharing:global-state:locale", "after 4 threads initialised and shot their own generators at the same moment the application's "
+                         "global C++ locale is no longer the one it had installed: a library call replaced process-wide state and the "
+                         "restore of one thread overwrote that of another", {"mode": "sharing-free"})
+        if sl[-1]["differ"]:
+            d = [j for j in jl if "differ" in j and "phase" not in j]
+            ck.violation("sharing:free:events-differ:app-locale", "free-running threads (application with a decimal-comma global locale): an instance "
+                         "behaves differently from its run alone: %s" % d[:3], {"mode": "sharing-free"})
     # spec/Handover.tla: every generator initialised, shot (twice) and reset on four different threads, one thread at a time
     ho_cfg = ["Mo100:0:21", "Se82:0:21", "GATEST", "GATEST"] + extra_cfg + DBD_SHARE_CFGS + [n + ":bkg" for n in (names if thorough else names[::3])]
     for variant, exe_h, env_h in (("plain", exe, dict(vlib.harness_env("plain"), BXDECAY0_DBD_GA_DATA_DIR=gad, VERIF_GA_VERSION="v1.0")), ("tsan", exe_t, env)):
